@@ -81,6 +81,10 @@ def pred_game(rng, kind=None, stratum=None, n=None, maxsize=8):
         for i in range(n):
             lo, hi = [(15, 20), (-20, -15), (12, 20), (14, 19)][i % 4] if i < 2 or rng.random() < 0.7 else (-20, -14)
             teams.append([(rng.uniform(lo, hi) * beta, beta * 10 ** rng.uniform(-3, -0.5)) for _ in range(sz)])
+        if rng.random() < 0.5:
+            # ... next to a team of uncertain players (sigma ~ 10 beta) whose total lies in between: out of reach for nobody
+            teams[-1] = [(rng.uniform(5, 12) * beta, rng.uniform(6, 10) * beta) for _ in range(rng.randint(4, 8))]
+            teams[0] = [(-20.0 * beta, beta * 10 ** rng.uniform(-3, -1))]
         rng.shuffle(teams)
     elif stratum == "newcomers":
         # new players hold the model's default rating: equal (mu, sigma) within a team and across teams, next to a few others
@@ -239,7 +243,13 @@ def impl_pred(g, cls=None, probe=None):
     fns = (model.predict_win, model.predict_draw, model.predict_rank)
     out = [None, None, None]
     for k in order:
-        out[k] = core.in_thread(lambda k=k: fns[k](teams)) if h % 8 == 6 else fns[k](teams)
+        if h % 8 == 6:
+            out[k] = core.in_thread(lambda k=k: fns[k](teams))
+        elif h % 8 == 7:
+            with core.odd_ambient():
+                out[k] = fns[k](teams)
+        else:
+            out[k] = fns[k](teams)
     if h % 4 == 1 and not g.get("_no_history"):
         # the caller owns what a query returns: the returned lists are edited in place (percentages, sorting, popping) and the same
         # queries repeated — every answer is a fresh object holding the same numbers
